@@ -134,10 +134,17 @@ func (s *heapSys) Ops() []seqmc.Op {
 	}
 	ops = append(ops, op("Convert", 0), op("Convert", 1))
 	for i, o := range s.others() {
-		if len(s.model)+len(o) <= s.cap {
-			ops = append(ops, op("MergeAdopt", i), op("MeldAdopt", i))
-		} else {
-			ops = append(ops, op("MergeDrop", i))
+		// second argument: the partner heap is ordered by the same (0) or the opposite (1) comparator;
+		// the result is a heap under the receiver's comparator in both cases
+		for opp := 0; opp < 2; opp++ {
+			if len(o) < 2 && opp == 1 {
+				continue
+			}
+			if len(s.model)+len(o) <= s.cap {
+				ops = append(ops, op("MergeAdopt", i, opp), op("MeldAdopt", i, opp))
+			} else {
+				ops = append(ops, op("MergeDrop", i, opp))
+			}
 		}
 	}
 	return ops
@@ -257,7 +264,11 @@ func (s *heapSys) Apply(o seqmc.Op, c *seqmc.Ctx) {
 	case "MergeAdopt", "MergeDrop", "MeldAdopt":
 		other := s.others()[o.I[0]]
 		od := append([]hE{}, other...)
-		h2 := heap.FromSlice(od, hComps[s.cmp])
+		cmp2 := s.cmp
+		if len(o.I) > 1 && o.I[1] == 1 {
+			cmp2 = map[string]string{"<": ">", ">": "<"}[s.cmp]
+		}
+		h2 := heap.FromSlice(od, hComps[cmp2])
 		union := append(append([]hE{}, s.model...), other...)
 		if o.N == "MeldAdopt" {
 			r := s.h.Meld(h2)
